@@ -1,14 +1,17 @@
 #!/bin/bash
 # For every confirmed seeded defect under /verif/seeded: apply it to /repo, run the quick check of its property
 # (plus any extra ids given as arguments), record exit codes in meta.json, revert.  Usage: tools/seed_matrix.sh [name...]
-cd /verif
+# REPO / VERIF may be overridden (a `vp run` snapshot sets VP_RUN_REPO; VERIF defaults to this script's checkout)
+REPO=${REPO:-${VP_RUN_REPO:-/repo}}
+VERIF=${VERIF:-$(cd "$(dirname "$0")/.." && pwd)}
+cd "$VERIF"
 names="$@"; [ -z "$names" ] && names=$(ls seeded)
 for n in $names; do
-  d=/verif/seeded/$n; [ -f $d/meta.json ] || continue
+  d=$VERIF/seeded/$n; [ -f $d/meta.json ] || continue
   patch=$d/patch.diff; [ -f $d/patch_for_current_repo.diff ] && patch=$d/patch_for_current_repo.diff
   prop=$(python3 -c "import json;print(json.load(open('$d/meta.json'))['property'])")
-  if [ -n "$(git -C /repo status --porcelain --untracked-files=no)" ]; then echo "/repo dirty" >&2; exit 2; fi
-  if ! git -C /repo apply "$patch" 2>/dev/null; then echo "$n: patch does not apply"; continue; fi
+  if [ -n "$(git -C "$REPO" status --porcelain --untracked-files=no)" ]; then echo "/repo dirty" >&2; exit 2; fi
+  if ! git -C "$REPO" apply "$patch" 2>/dev/null; then echo "$n: patch does not apply"; continue; fi
   res=""
   for id in $prop $(python3 -c "import json;print(' '.join(json.load(open('$d/meta.json')).get('also_run',[])))"); do
     out=$(./check.sh $id quick 2>&1); rc=$?
@@ -21,6 +24,6 @@ m=json.load(open(p)); m.setdefault('detection',{})[id]={'quick_exit':int(rc),'fi
 json.dump(m,open(p,'w'),indent=1)
 PY
   done
-  git -C /repo checkout -- .
+  git -C "$REPO" checkout -- .
   echo "$n:$res"
 done
